@@ -181,6 +181,17 @@ class Gen:
     def program(self):
         rs = self.rs
         body = self.block(0, False, False, False, min_len=2)
+        if rs.below(5) == 0:
+            # the process BEGINS with a loop (its header shares the first state): a break sits before the first suspension of
+            # the body, a continue is reached in a later state, and nothing but plain statements follows the loop
+            inner = [["if", self.cond(), ([self.simple()] if rs.below(2) else []) + [["break"]], None], ["await", self.bitcond()] if rs.below(2) else ["tick"]]
+            if rs.below(2):
+                inner.append(self.simple())
+            inner.append(["if", self.cond(), ([self.simple()] if rs.below(2) else []) + [["continue"]], None])
+            inner.append(self.simple())
+            if rs.below(2):
+                inner.append(["tick"])
+            body = [["while", self.cond() if rs.below(3) else "TRUE", inner], self.mark()] + ([self.simple()] if rs.below(2) else [])
         if self.allow_subs and rs.below(3) == 0:
             # an awaited sub-coroutine whose loop can be left in the same state in two ways (its condition, a break / return),
             # with statements following the call
@@ -371,6 +382,8 @@ def render(prog, attrs=None):
     ]
     if prog.get("reset"):
         L.append("    rst = Port.input(Bit)")
+        if prog["reset"].get("derive"):
+            L.append("    xr = Port.input(Bit)")
     if prog.get("step_cond"):
         L.append("    en = Port.input(Bit)")
     L += [
@@ -424,7 +437,14 @@ def render(prog, attrs=None):
         L.append("        def on_rst():")
         L.append("            self.orr <<= 9")
         kw += ", on_reset=on_rst"
-    L.append(f"        @std.sequential({', '.join(args)}{kw})")
+    if rst.get("derive"):
+        # the context is derived from one that already has a reset: a second reset source (input xr) is OR-ed / AND-ed in
+        dv = rst["derive"]
+        L.append(f"        base_ctx = std.sequential({', '.join(args)}{kw})")
+        L.append(f"        ctx = base_ctx.{dv['op']}_reset(self.xr, active_low={bool(dv['low'])})")
+        L.append("        @ctx")
+    else:
+        L.append(f"        @std.sequential({', '.join(args)}{kw})")
     L.append("        async def proc():")
     w = set()
     uses_var_write(prog["body"], w)
